@@ -346,6 +346,29 @@ fn check_from(ctx: &mut Ctx, t: IT, v: &Big) {
         let n = v.to_i128().unwrap();
         let via = guard(|| <TwoFloat as num_traits::NumCast>::from(Ticks(n))).ok().flatten().map(Dd::of);
         check!(ctx, via.map(|d| d.valid() && d.big() == r.big()) == Some(true), "<TwoFloat as NumCast>::from(user-defined ToPrimitive source holding {n}) = {:?} but TwoFloat::from(n) = {}", via.map(|d| d.show()), r.show());
+        // the SIZE of the source type says nothing about the size of its value: a zero-sized and a
+        // 4-byte handle to a value kept elsewhere, and a 48-byte record
+        thread_local! { static CUR: std::cell::Cell<i128> = const { std::cell::Cell::new(0) }; }
+        struct Current;
+        struct Handle(#[allow(dead_code)] u32);
+        struct Record([i128; 3]);
+        macro_rules! reads { ($t:ty, $get:expr) => {
+            impl ToPrimitive for $t {
+                fn to_i64(&self) -> Option<i64> { i64::try_from($get(self)).ok() }
+                fn to_u64(&self) -> Option<u64> { u64::try_from($get(self)).ok() }
+            }
+        }; }
+        reads!(Current, |_s: &Current| CUR.with(|c| c.get()));
+        reads!(Handle, |_s: &Handle| CUR.with(|c| c.get()));
+        reads!(Record, |s: &Record| s.0[1]);
+        CUR.with(|c| c.set(n));
+        for (what, via) in [
+            ("zero-sized", guard(|| <TwoFloat as num_traits::NumCast>::from(Current)).ok().flatten().map(Dd::of)),
+            ("4-byte", guard(|| <TwoFloat as num_traits::NumCast>::from(Handle(7))).ok().flatten().map(Dd::of)),
+            ("48-byte", guard(|| <TwoFloat as num_traits::NumCast>::from(Record([0, n, -1]))).ok().flatten().map(Dd::of)),
+        ] {
+            check!(ctx, via.map(|d| d.valid() && d.big() == r.big()) == Some(true), "<TwoFloat as NumCast>::from({what} user-defined ToPrimitive source holding {n}) = {:?} but TwoFloat::from(n) = {}", via.map(|d| d.show()), r.show());
+        }
     }
     // the pointer-sized routes follow the 64-bit ones on this host
     if t == IT::U64 {
